@@ -5,6 +5,7 @@
 From Coq Require Import ZArith List Bool.
 Import ListNotations.
 Require Import SZV.Base.CSem SZV.Gen.SrcFuns SZV.Model.Dims SZV.Proofs.Dims_proofs SZV.Proofs.Dims_corollaries.
+Require Import SZV.Model.Consistency SZV.Proofs.Consistency_proofs.
 Local Open Scope Z_scope.
 
 (* The filter applied by SZ_compress_args and SZ_decompress removes exactly the size-1 dimensions,
@@ -55,6 +56,11 @@ Print Assumptions C09_five_d_only_if_genuine.
 
 (* non-vacuity and regression examples (the second was refuted before the fix of filterDimension:
    (1,1) used to filter to the empty shape) *)
+(* read from the source on every run: every block offset of the regression kernels is written with one dimension letter and its loop counter throughout (86 sites in the float/double compressors and decompressors) *)
+Theorem C09_block_offsets_consistent : block_offsets_ok = true.
+Proof. exact block_offsets_hold. Qed.
+Print Assumptions C09_block_offsets_consistent.
+
 Example C09_ex_wf : wf 1 3 1 4 1 /\ filtered 1 3 1 4 1 = (0, 0, 0, 3, 4) /\ dispatch_len 1 3 1 4 1 = 12.
 Proof. repeat split; try (vm_compute; congruence); vm_compute; reflexivity. Qed.
 Example C09_ex_all_ones : wf 0 0 0 1 1 /\ filtered 0 0 0 1 1 = (0, 0, 0, 0, 1) /\ dispatch_len 0 0 0 1 1 = 1.
